@@ -64,6 +64,10 @@ class Conc:
         return self.names[tok]
 
     def typ(self, tok):
+        if tok >= 200:                                   # type of an auto-created extents array
+            return self.types[tok - 200] + "-extents"
+        if tok >= 100:                                   # ... positions array
+            return self.types[tok - 100] + "-positions"
         return self.types[tok]
 
     def value(self, tok):
@@ -363,6 +367,7 @@ class Session:
         self.auto = True
         self.rnd = random.Random(how_seed)
         self.handles = {}     # object number -> handle obtained at creation (session-continuous)
+        self.handles_b = {}   # object number -> second long-lived handle (first lookup, kept)
         self.meta = {}        # object number -> (kind, owner, name token)
         self._install_clock()
         self.nf = nixio.File.open(path, nixio.FileMode.Overwrite)
@@ -391,16 +396,30 @@ class Session:
     def obj(self, num, fresh=None):
         """Handle for spec object `num`: the one kept from creation, or a fresh one through the public path."""
         kind, owner, name = self.meta[num]
+        # three ways to reach an entity: the handle kept from creation (A), a second long-lived handle that
+        # was looked up once and is kept (B) - both carry whatever the library caches on handle objects -
+        # and a fresh lookup that is thrown away
+        r = self.rnd.random()
         if fresh is None:
-            fresh = self.rnd.random() < 0.5
-        h = self.handles.get(num)
-        if h is not None and not fresh:
-            return h
+            which = "A" if r < 0.4 else ("B" if r < 0.8 else "fresh")
+        else:
+            which = "fresh" if fresh else ("A" if r < 0.5 else "B")
+        if which == "A":
+            h = self.handles.get(num)
+            if h is not None:
+                return h
+            which = "B"
+        if which == "B":
+            h = self.handles_b.get(num)
+            if h is not None:
+                return h
         cont = self.container_of(owner, kind)
-        # fresh lookup by position in the container (robust against name/id dispatch problems,
-        # which are C03's business and probed there explicitly)
+        # lookup by iteration (robust against name/id dispatch problems, which are C03's business and
+        # probed there explicitly)
         for cand in cont:
             if cand.id == self.uuid[num]:
+                if which == "B":
+                    self.handles_b[num] = cand
                 return cand
         raise KeyError("spec object %d (%s) not reachable" % (num, kind))
 
@@ -418,10 +437,12 @@ class Session:
         for num in list(self.handles):
             if num not in alive:
                 self.handles.pop(num, None)
+                self.handles_b.pop(num, None)
 
     def reopen(self, mode):
         self.nf.close()
         self.handles = {}
+        self.handles_b = {}
         self.nf = self.nixio.File.open(self.path, mode)
         self.nf.auto_update_timestamps = self.auto
         return self.nf
@@ -471,6 +492,18 @@ class Session:
                 ext = self.obj(act["ext"]) if act["ext"] else None
                 h = b.create_multi_tag(self.conc.name(act["n"]), self.conc.typ(act["t"]), pos, ext)
                 self.remember(act["new"], h, "mtag", act["owner"], act["n"])
+            elif name == "CreateMTagAuto":
+                b = self.obj(act["owner"])
+                nm_ = self.conc.name(act["n"])
+                h = b.create_multi_tag(nm_, self.conc.typ(act["t"]), positions=self.conc.data(0),
+                                       extents=self.conc.data(0) if act["ext"] else None)
+                k = 2 if act["ext"] else 1
+                # handles through the primary container (a handle obtained through a role link names the
+                # link, not the array: it is not expected to survive the link being cleared)
+                self.remember(act["new"], b.data_arrays[nm_ + "-positions"], "array", act["owner"], "pos:" + act["n"])
+                if act["ext"]:
+                    self.remember(act["new"] + 1, b.data_arrays[nm_ + "-extents"], "array", act["owner"], "ext:" + act["n"])
+                self.remember(act["new"] + k, h, "mtag", act["owner"], act["n"])
             elif name == "CreateFeature":
                 tg = self.obj(act["owner"])
                 h = tg.create_feature(self.obj(act["data"]), LINKTYPES[act["t"]])
